@@ -183,10 +183,19 @@ class Sequences(Lattice):
                                 check_case(maxd, rpos, qb, 0, shb, start, revb, acc, None, [(qa, 0, sha, reva)])
 
 
+class Fractional(Lattice):
+    """half-integer query coordinates: labels exactly half a unit beyond maxDistance must stay unpaired (window tests and offsets
+    must be computed on the real coordinates, not on truncated ones)"""
+
+    def __init__(self, name, optional=False):
+        Lattice.__init__(self, name, list(range(0, 5)), 3, [x / 2.0 for x in range(0, 9)], 2, (0, 1), (1, 2), optional)
+        self.rule = 'half-integer query coordinates: ' + self.rule
+
+
 def layers(tier, seed):
     quick = Lattice('R<=4,Q<=3', list(range(0, 7)), 4, list(range(0, 5)), 3, (-1, 0, 1, 3), (0, 1, 2))
     seq = Sequences('seq2:R<=2,Q<=2', list(range(0, 5)), 2, list(range(0, 5)), 2, (0, 1), (0, 1, 2))
     if tier == 'quick':
-        return [quick, seq]
-    return [quick, seq, Sequences('seq2:R<=3,Q<=3', list(range(0, 5)), 3, list(range(0, 5)), 3, (-1, 0, 1), (1, 2)),
+        return [quick, seq, Fractional('fractional:R<=3,Q<=2')]
+    return [quick, seq, Fractional('fractional:R<=3,Q<=2'), Sequences('seq2:R<=3,Q<=3', list(range(0, 5)), 3, list(range(0, 5)), 3, (-1, 0, 1), (1, 2)),
             Lattice('R<=5,Q<=4', list(range(0, 8)), 5, list(range(0, 6)), 4, (-2, -1, 0, 1, 2, 3, 4), (0, 1, 2, 3), optional=True)]
